@@ -308,6 +308,9 @@ pub const STATE_CAP: usize = 20_000;
 
 /// repetition counts of the soak sweep (see `run`)
 pub const SOAK_COUNTS: [usize; 7] = [1, 2, 3, 5, 10, 50, 300];
+/// a much longer run, used for the inputs that are rejected (whatever a failing parse leaks - a counter, a
+/// buffer - needs a while to add up when the failure is shallow): x^k y only
+pub const SOAK_LONG: usize = 1200;
 
 /// further inputs used as the repeated element of the soak sweep only: bracket towers 64 deep
 /// (unterminated, terminated, over-closed) of every bracket kind, and a long garbage run
@@ -326,6 +329,11 @@ pub fn soak_extras(f: &F) -> Vec<String> {
         v.push(format!("{}a{}", open.repeat(64), close.repeat(64)));
         v.push(format!("{}a{}", open.repeat(8), close.repeat(11)));
         v.push(format!("{}a{}", open.repeat(64), close.repeat(32)));
+        // towers that FAIL at the bottom (an unterminated bracket is leniently accepted, so the towers above all
+        // succeed): nothing at all inside, and a character that cannot start a term
+        v.push(open.repeat(64));
+        v.push(format!("{}{}", open.repeat(64), f.e.sentence.punctuation_judgement));
+        v.push(format!("{}{}{}", open.repeat(33), f.e.sentence.punctuation_judgement, close.repeat(33)));
     }
     v.push(c.brackets.1.repeat(100));
     v.push(format!("{}0.5", f.e.task.budget_brackets.0).repeat(40));
@@ -628,8 +636,12 @@ pub fn run(run: &Run) {
             let pairs: Vec<(usize, usize)> = (0..soak.len()).flat_map(|i| (0..alpha.len()).map(move |j| (i, j))).collect();
             pairs.par_iter().for_each(|&(i, j)| {
                 let (x, y) = (soak[i].as_str(), alpha[j].1.as_str());
-                for &k in SOAK_COUNTS.iter() {
+                let long = if soak_fresh[i].is_err() && x.chars().count() <= 160 { Some(SOAK_LONG) } else { None };
+                for &k in SOAK_COUNTS.iter().chain(long.iter()) {
                     for pattern in 0..2 {
+                        if k == SOAK_LONG && pattern == 1 {
+                            continue;
+                        }
                         let mut inputs: Vec<&str> = vec![];
                         let mut want = vec![];
                         if pattern == 0 {
